@@ -110,6 +110,7 @@ type Report struct {
 	SolverNs     int64
 	WallS        float64
 	Exhausted    bool // false if MaxPaths or deadline cut the exploration
+	DecisionSites map[string]int
 }
 
 type PathSample struct {
@@ -299,6 +300,16 @@ func Explore(prog *ssa.Program, sh *Shared, fn *ssa.Function, cfg Config) *Repor
 			rep.Paths++
 			rep.Ends[res.End]++
 			rep.Decisions += len(res.Decisions)
+			if rep.DecisionSites == nil {
+				rep.DecisionSites = map[string]int{}
+			}
+			from := len(t.prefix)
+			if from > len(res.Decisions) {
+				from = len(res.Decisions)
+			}
+			for _, d := range res.Decisions[from:] {
+				rep.DecisionSites[d.Kind]++
+			}
 			rep.Steps += int64(res.Steps)
 			rep.Unknowns += res.Unknowns
 			for _, a := range res.Asserts {
@@ -419,7 +430,7 @@ func runPath(prog *ssa.Program, sh *Shared, fn *ssa.Function, prefix []int32, so
 	p := &pathCtx{prefix: prefix, solver: solver, occ: map[string]int{}, facts: map[string]string{}, res: res,
 		maxSteps: cfg.MaxSteps, unwind: cfg.Unwind, maxDepth: cfg.MaxDepth, cfg: cfg, secCache: map[int64]value{}}
 	i := &interpreter{prog: prog, globals: map[*ssa.Global]*value{}, inited: map[*ssa.Package]bool{}, path: p, shared: sh,
-		funcHits: map[*ssa.Function]int{}, tracing: cfg.Trace, onces: map[*value]bool{}}
+		funcHits: map[*ssa.Function]int{}, tracing: cfg.Trace, onces: map[*value]bool{}, syncMaps: map[*value]*omap{}}
 	if rt := prog.ImportedPackage("runtime"); rt != nil {
 		if et := rt.Type("errorString"); et != nil {
 			i.runtimeErrorString = et.Type()
